@@ -5,7 +5,10 @@ cd "$(dirname "$0")"
 export GOFLAGS=-mod=mod GOPROXY=off GOSUMDB=off GOTOOLCHAIN=local CGO_ENABLED=1
 mkdir -p .work/bin evidence replays
 ./prepare.sh
-(cd harness && go build -o ../.work/bin/vh ./cmd/vh)
-# warm the build cache for the instrumented flavours (race, asan std libs are the slow part)
-(cd harness && go build -race -o ../.work/bin/vh-race ./cmd/vh) || true
+# build once to verify the tree and to warm the build cache (std with -race / -asan is the slow part);
+# checks rebuild what they need against /repo's working tree on every invocation
+(cd harness && go build -o ../.work/bin/warm ./cmd/vh)
+(cd harness && go build -race -o ../.work/bin/warm ./cmd/vh) || true
+(cd harness && go build -asan -o ../.work/bin/warm ./cmd/vh) || true
+rm -f .work/bin/warm
 echo setup ok
